@@ -1,4 +1,5 @@
 """C09 - every valid BER form of a value decodes to that value."""
+import zlib
 from pv.core import ir, gen, build, absval, lib, harness, x690
 from pv.core import findings as fz
 
@@ -11,7 +12,7 @@ RULE = ('Hypothesis draws (T, v) from U and one member of BER(T, v) from the ref
         'binary REAL mantissa); the variant is first validated by the reference reader; oracle: ber.decode(variant, asn1Spec=T) '
         'returns v with empty remainder. Non-trivial = at least one choice point taken differently from the canonical (DER) form; '
         'distinct = distinct variant bytes.')
-RULE += (' ' + 'Also drawn: binary REAL in base 8 / 16 with scaling factor and each of the exponent length forms (one to three octets incl. sign extension, length-prefixed), decimal REAL as NR1 / NR2 / NR3, up to 126 length octets; one case in eight comes from a numbers-only universe.')
+RULE += (' ' + 'Also drawn: binary REAL in base 8 / 16 with scaling factor and each of the exponent length forms (one to three octets incl. sign extension, length-prefixed), decimal REAL as NR1 / NR2 / NR3, up to 126 length octets; one case in eight comes from a numbers-only universe. In one case in four about half of the OCTET STRING and character string leaves are built with the documented encoding= option (OCTET STRING: any codec, the wire is unaffected; character strings: utf-8 / utf-16-be / utf-32-be other than the type\'s own, the reference spells the characters with that codec).')
 ASSUMPTIONS = ['pv/core/x690.py writes only encodings X.690 permits (choice points whose legality is not certain are not drawn: '
                'zero-segment constructed strings, non-minimal INTEGER/OID/tag numbers, non-zero unused bits, REAL bases 8/16)']
 SHARDS = {'quick': (16, 250), 'thorough': (16, 6000)}
@@ -70,12 +71,17 @@ def run_shard(desc, seed, tier, col):
 
     def body(x):
         (T, v), data = x
+        # one case in four: string leaves built with the documented `encoding=` option (pure function of the drawn case)
+        key = ir.jdump([ir.to_jsonable(T), ir.to_jsonable(v)])
+        n_opt = 0
+        if zlib.crc32(key.encode()) % 4 == 0:
+            T, n_opt = ir.with_enc_opt(T, key)
         rec = x690.Recording(gen.HypChooser(data.draw))
         enc = x690.ber(T, v, rec)
         case = {'T': T, 'v': v, 'script': rec.script}
         if variant(case) != enc:
             raise harness.HarnessError('recorded choice script does not replay to the same variant')
-        feats = sorted(k for k in rec.feat if k not in ('def',))
+        feats = sorted(k for k in rec.feat if k not in ('def',)) + (['encoding-option'] if n_opt else [])
         nontriv = any(k != 'indef' or rec.feat.get('def') for k in feats) or 'indef' in feats
         col.case(enc, nontriv, feats + ['depth=%d' % ir.depth(T)],
                  sample={'type': ir.show_type(T), 'value': absval.short(v, 160), 'variant': enc.hex()[:200],
